@@ -164,6 +164,37 @@ Definition compact (src : bytes) : option bytes := compact_go scan_init src [].
 (* one well-formed JSON value, optional surrounding white space *)
 Definition json_valid (src : bytes) : bool := match compact src with Some _ => true | None => false end.
 
+(* ---- the native validator (alg.Valid -> native validate_one), as far as Marshaler output is concerned: the same
+   automaton except inside string literals, where the byte after a backslash is not checked and control characters
+   are accepted (observed on the pre-assembled routine: "\x", "\u12", raw 0x01 are all accepted; property C02 owns
+   the full model of that routine) *)
+Definition feed_native (s : scanner) (c : N) : sres :=
+  let ps := pstack s in
+  match step s with
+  | SInString =>
+      if c =? 34 then RCont (mk SEndValue ps)
+      else if c =? 92 then RCont (mk SInStringEsc ps)
+      else RCont s
+  | SInStringEsc | SInStringEscU _ => RCont (mk SInString ps)
+  | _ => feed s c
+  end.
+
+Fixpoint native_go (s : scanner) (src : bytes) : bool :=
+  match src with
+  | [] => at_eof s
+  | c :: r =>
+      match feed_native s c with
+      | RCont s' | RSkip s' => native_go s' r
+      | RError => false
+      end
+  end.
+Definition native_valid (src : bytes) : bool := native_go scan_init src.
+
+Example native_valid_ex :
+  native_valid [34; 92; 120; 34] = true /\ json_valid [34; 92; 120; 34] = false /\      (* "\x" *)
+  native_valid [34; 97; 1; 34] = true /\ native_valid [34; 92] = false /\ native_valid [91; 49; 44; 93] = false.
+Proof. repeat split; reflexivity. Qed.
+
 Example compact_ex :
   compact [32; 123; 34; 97; 34; 32; 58; 9; 91; 32; 49; 32; 44; 32; 50; 32; 93; 32; 125; 10]
   = Some [123; 34; 97; 34; 58; 91; 49; 44; 50; 93; 125].
